@@ -398,10 +398,39 @@ func (obj *Array) LoadForm() Object {
 		Symbol(":element-type"),
 		et,
 		Symbol(":initial-contents"),
-		List{quoteSymbol, obj.AsList()},
+		contentsLoadForm(obj.AsList()),
 	}
 	if obj.adjustable {
 		form = append(form, Symbol(":adjustable"), True)
 	}
 	return form
+}
+
+// contentsLoadForm returns the form for the :initial-contents of an array.
+// Elements that are written the way they are read, numbers, characters,
+// strings, symbols and lists of those, are quoted as a whole. Anything else,
+// a vector in a vector or a hash-table, has no readable text of its own and
+// the contents are built with the load forms of the elements.
+func contentsLoadForm(contents List) Object {
+	if quotable(contents) {
+		return List{quoteSymbol, contents}
+	}
+	return contents.LoadForm()
+}
+
+func quotable(obj Object) bool {
+	switch to := obj.(type) {
+	case nil, Symbol, String, Character, Fixnum, Octet, SingleFloat, DoubleFloat, *LongFloat, *Bignum, *Ratio, Complex:
+		return true
+	case Tail:
+		return quotable(to.Value)
+	case List:
+		for _, e := range to {
+			if !quotable(e) {
+				return false
+			}
+		}
+		return true
+	}
+	return false
 }
